@@ -3,9 +3,11 @@
    [2 VB name; args; oracle]         Build of the single call name(args) (args of any kind, any count)
    [3 toks; calls; oracle]           Build of a composite expression; toks as in C16 (atom n = calls[n]);
                                      calls[n] = VL [VB name; args] (a call) or VL [VB name] (a bare identifier)
+   [4 VB text; oracle]               condition.Build(text) on ASCII text: scanner + grammar + builders are modelled
+                                     (model/CondScan.v); the model predicts ok / error exactly
    output: VZ 0 = a condition was returned, VZ 1 = an error was returned ([-2] panic / [-3] hang otherwise) *)
 From Coq Require Import List ZArith Bool.
-From Bfe Require Import lib.Val lib.Bytes gen.CondProtos model.CondParse model.CondPrim run.RunC16.
+From Bfe Require Import lib.Val lib.Bytes gen.CondProtos model.CondParse model.CondPrim model.CondScan run.RunC16.
 Import ListNotations.
 Open Scope Z_scope.
 Local Open Scope list_scope.
@@ -41,7 +43,8 @@ Definition build_composite (x : ext) (ts : list tok) (calls : list (bytes * opti
 Inductive op17 :=
 | ORaw (text : bytes)
 | OCall (x : ext) (name : bytes) (args : list arg)
-| OComp (x : ext) (ts : list tok) (calls : list (bytes * option (list arg))).
+| OComp (x : ext) (ts : list tok) (calls : list (bytes * option (list arg)))
+| OText (x : ext) (text : bytes).
 
 Definition decode_C17 (i : val) : option op17 :=
   match i with
@@ -50,6 +53,11 @@ Definition decode_C17 (i : val) : option op17 :=
     match dec_args args, dec_ext orc with
     | Some a, Some x => Some (OCall x name a)
     | _, _ => None
+    end
+  | VL [VZ 4; VB text; orc] =>
+    match dec_ext orc with
+    | Some x => if ascii_text text then Some (OText x text) else None
+    | None => None
     end
   | VL [VZ 3; VL toks; VL calls; orc] =>
     match all_some (map (fun v => match v with VZ z => tok_of_Z z | _ => None end) toks),
@@ -69,6 +77,7 @@ Definition run_C17 (i : val) : val :=
   | Some (ORaw _) => VL []
   | Some (OCall x name a) => VZ (built (build_call x name a))
   | Some (OComp x ts cs) => VZ (build_composite x ts cs)
+  | Some (OText x text) => VZ (build_text (build_composite x) text)
   | None => VErr 0
   end.
 Definition total_obs (o : val) : bool := val_eqb o (VZ 0) || val_eqb o (VZ 1).
@@ -141,6 +150,13 @@ Definition prop_C17 (i o : val) : bool :=
   | Some (ORaw _) => total_obs o
   | Some (OCall x name a) => val_eqb o (VZ (if must_reject x name a then 1 else 0))
   | Some (OComp x ts cs) => val_eqb o (VZ (if must_reject_comp x ts cs then 1 else 0))
+  | Some (OText _ _) => total_obs o
   | None => true
+  end.
+(* inputs on which the model is deterministic: everything except raw (possibly non-ASCII) bytes *)
+Definition wf_C17 (i : val) : bool :=
+  match decode_C17 i with
+  | Some (ORaw _) | None => false
+  | Some _ => true
   end.
 Definition kf_C17 (i : val) : Z := 0.
